@@ -180,8 +180,9 @@ fn c10_write_all_step() {
     }
     std::mem::forget(r);
     std::mem::forget(w);
-    kani::cover!(n > 0 && skip + n < buf.len && positional, "positional continuation");
-    kani::cover!(n > 0 && skip + n < buf.len && !positional && skip > 0, "second continuation at the current position");
-    kani::cover!(skip + n == buf.len && skip > 0, "finished after a partial write");
-    kani::cover!(n == 0, "write zero");
+    // reachability witnesses (CBMC reports ERROR for cover goals on a formula of this size): each MUST fail
+    assert!(!(n > 0 && skip + n < buf.len && positional), "CANARY: positional continuation reachable");
+    assert!(!(n > 0 && skip + n < buf.len && !positional && skip > 0), "CANARY: second continuation at the current position reachable");
+    assert!(!(skip + n == buf.len && skip > 0), "CANARY: finished after a partial write reachable");
+    assert!(n != 0, "CANARY: write zero reachable");
 }
